@@ -279,13 +279,13 @@ func vxH08NoLock(typ int, withAuth bool, withFlush bool) {
 
 	if vxSymbolic() {
 		for _, c := range ops.calls {
-			vxAssert(c.locks == 0, "no-lock-held-at-the-entry-of-a-request-operation")
+			vxAssertE(c.locks == 0, "no-lock-held-at-the-entry-of-a-request-operation")
 		}
 		for _, c := range ops.authCalls {
-			vxAssert(c.locks == 0, "no-lock-held-at-the-entry-of-an-authentication-operation")
+			vxAssertE(c.locks == 0, "no-lock-held-at-the-entry-of-an-authentication-operation")
 		}
 		// FidDestroy and FlushOp count their violations themselves
-		vxAssert(ops.lockViol == 0, "no-lock-held-at-the-entry-of-any-implementation-call")
+		vxAssertE(ops.lockViol == 0, "no-lock-held-at-the-entry-of-any-implementation-call")
 	}
 	if len(ops.calls) > 0 {
 		vxReach("forwarded")
@@ -552,5 +552,57 @@ func vxH08FifoLate(maxpend int) {
 		}
 	}
 	vxAssert(entered == 3, "every-member-reached-the-implementation")
+	vxReach("done")
+}
+
+// H08.dispatcher: an implementation that answers from one dispatcher goroutine. Two requests share a tag; the
+// second is slow inside the implementation. The dispatcher, after answering the first, must stay free to answer
+// an unrelated request: the framework may not run the queued member on the goroutine that answered.
+func vxH08Dispatcher(maxpend int) {
+	kit := vxNewKit(false, false, 8192, true)
+	kit.srv.Maxpend = maxpend
+	kit.ops.echo = true
+	nc := vxNewNetConn()
+	kit.srv.NewConn(nc)
+	if !vxH08Prologue(kit, nc) {
+		return
+	}
+	mark := len(nc.wire)
+	tagG := vxU16("tagG")
+	tagO := vxU16("tagO")
+	vxAssume(vxAll(tagG != NOTAG, tagO != NOTAG, tagG != tagO))
+	hold := make(chan bool, 1)
+	work := make(chan *SrvReq, 8)
+	kit.ops.hook = func(op string, req *SrvReq) {
+		if op == "read" && req.Tc.Offset == 0x0202 {
+			<-hold // the second member of the group is slow inside the implementation
+		}
+	}
+	kit.ops.outcome = vxOutNone
+	kit.ops.savedCh = work
+	// the dispatcher: answers whatever the workers hand over, one at a time
+	stop := make(chan bool, 1)
+	go func() {
+		for {
+			select {
+			case r := <-work:
+				r.RespondRread([]byte{byte(r.Tc.Offset), byte(r.Tc.Offset >> 8)})
+			case <-stop:
+				return
+			}
+		}
+	}()
+	nc.in <- append(vxH08Read(tagG, 0x0101), vxH08Read(tagG, 0x0202)...)
+	vxQuiesce()
+	nc.in <- vxH08Read(tagO, 0x0909)
+	vxQuiesce()
+	fs, ok := vxFrames(nc.wire[mark:])
+	vxAssert(ok, "reply-stream-well-formed")
+	vxAssert(vxH08Count(fs, tagO) == 1, "unrelated-request-answered-while-a-tag-group-member-is-slow")
+	hold <- true
+	vxQuiesce()
+	fs, ok = vxFrames(nc.wire[mark:])
+	vxAssert(ok && len(fs) == 3, "every-request-answered")
+	stop <- true
 	vxReach("done")
 }
